@@ -4,13 +4,13 @@ CONSTANTS
   Heads <- HeadsOps
   Levels = {}
   Calls = {}
-  TextBytes = {2, 97}
-  MaxText = 1
+  TextBytes = {0, 2, 97}
+  MaxText = 2
   Ops = {"abort"}
   LogMax = 256
   AsFound = {}
   Chain = TRUE
-  GenMax = 12
+  GenMax = 13
 VIEW GenView
 CONSTRAINT GenBound
 CHECK_DEADLOCK FALSE
